@@ -192,6 +192,15 @@ impl CaseDir {
         p.push(".stdin");
         std::fs::read(p).ok()
     }
+    /// What the k-th invocation (1-based) of this generator read.
+    pub fn generator_stdin_nth(&self, gen: &Path, k: usize) -> Option<Vec<u8>> {
+        if k <= 1 {
+            return self.generator_stdin(gen);
+        }
+        let mut p = gen.to_path_buf().into_os_string();
+        p.push(format!(".stdin.{k}"));
+        std::fs::read(p).ok()
+    }
 }
 
 impl Drop for CaseDir {
